@@ -16,6 +16,8 @@ import RedisVerif.Model.Resp
     * the constant `HEADER_LEN = 14` of the four recognisers exactly as written (the headers
       `*2\r\n$3\r\nGET\r\n` / `*3\r\n$3\r\nSET\r\n` they compare against are 13 bytes long) — it is the
       parameter `headerLen` so that the "obvious fix" 13 is a statement about the same model,
+    * the panic of `check_acl_permission` on a command name without a non-white-space character
+      (`nameGuard = false`: the code as it is; `true`: after the fix),
     * the `usize` arithmetic of the recognisers: `checked_add` + decline on overflow (after the fix
       commit; `checked = true`) or wrapping as in a release build (`checked = false`, the pinned
       code), slices that panic.
@@ -38,6 +40,10 @@ structure Config where
   /-- `true` = the recognisers add the declared lengths with `checked_add` and decline on overflow
       (after fix 7196080); `false` = wrapping `+` (the pinned code) -/
   checked : Bool
+  /-- `check_acl_permission` takes the base name of a `Command::Unknown(name)` with
+      `parts.first()` (`true`, after the fix) or indexes `parts[0]` of `name.split_whitespace()`
+      (`false`: a name that is empty or white space only panics) -/
+  nameGuard : Bool
   /-- the generic decoder: `codec1` (after the fixes) or `codec1Pinned` -/
   codec : Codec
   /-- machine resources of the generic decoder (Model/Resp) -/
@@ -215,6 +221,44 @@ def txAfter (inTx : Bool) (frame : Val) : Bool :=
     else (if n = nameMULTI then true else false)
   | none => inTx
 
+/-- `name.split_whitespace()` yields nothing: the UTF-8 string is empty or made of Unicode
+    White_Space only (U+0009–U+000D, U+0020, U+0085, U+00A0, U+1680, U+2000–U+200A, U+2028, U+2029,
+    U+202F, U+205F, U+3000).  (The name is the first bulk string through `from_utf8_lossy` and
+    `to_uppercase`: an invalid byte becomes U+FFFD, which is no white space, and upper-casing
+    maps no character to or from white space.) -/
+def isWsName : Bytes → Bool
+  | [] => true
+  | b :: rest =>
+    if (9 ≤ b ∧ b ≤ 13) ∨ b = 32 then isWsName rest
+    else if b = 194 then
+      (match rest with
+       | c :: r => (c = 133 ∨ c = 160) && isWsName r
+       | [] => false)
+    else if b = 225 then
+      (match rest with
+       | 154 :: 128 :: r => isWsName r
+       | _ => false)
+    else if b = 226 then
+      (match rest with
+       | 128 :: c :: r => ((128 ≤ c ∧ c ≤ 138) ∨ c = 168 ∨ c = 169 ∨ c = 175) && isWsName r
+       | 129 :: 159 :: r => isWsName r
+       | _ => false)
+    else if b = 227 then
+      (match rest with
+       | 128 :: 128 :: r => isWsName r
+       | _ => false)
+    else false
+
+/-- the generic path panics in `check_acl_permission` (`parts[0]` of an empty `Vec`): outside MULTI
+    (inside, `Command::Unknown` is answered with an error before any ACL check), for a frame whose
+    command name has no non-white-space character — such a name is no known command and no stub,
+    so it is `Command::Unknown(name)` and reaches the `_` arm -/
+def namePanics (guard inTx : Bool) (v : Val) : Bool :=
+  !guard && !inTx &&
+    (match v with
+     | .array (.bulk n :: _) => isWsName n
+     | _ => false)
+
 structure St where
   buf : Bytes
   inTx : Bool
@@ -249,8 +293,10 @@ def seqLoop (cfg : Config) : Nat → Bytes → Bool → List Action × Bytes × 
     | .notFast =>
       match (parseG cfg.codec cfg.env buf).out with
       | .ok v k =>
-        let (as, r, tx, cr) := seqLoop cfg f (buf.drop k) (txAfter inTx v)
-        (.exec v .generic :: as, r, tx, cr)
+        if namePanics cfg.nameGuard inTx v then ([.crash], [], inTx, true)
+        else
+          let (as, r, tx, cr) := seqLoop cfg f (buf.drop k) (txAfter inTx v)
+          (.exec v .generic :: as, r, tx, cr)
       | .incomplete _ => ([], buf, inTx, false)
       | .error _ => ([.protoErr], [], inTx, false)
       | .crash _ => ([.crash], [], inTx, true)
